@@ -11,7 +11,7 @@ from . import core
 
 ALPHABETS = ['A1', 'A2', 'A3', 'A4', 'A5', 'A6', 'A7', 'A8', 'A9', 'B1', 'B2', 'B3', 'B4', 'H1', 'H2', 'H3', 'R1', 'R2', 'R3', 'R5', 'W1']
 DEEP = ['S1']           # a small alphabet of containers, laziness and indentation read two lines deeper (5 / 6 lines)
-DEEP_MORE = ['S2', 'S3', 'S4', 'S5']    # the same for fences, setext underlines, nested lists and HTML blocks (C03 and C13 only)
+DEEP_MORE = ['S2', 'S3', 'S4', 'S5', 'S6', 'S7']    # the same for fences, setext underlines, nested lists, HTML blocks, ordered lists and ATX headings in containers (C03 and C13 only)
 SMALL = ['R4']          # small alphabets read one line deeper (a multi-line title needs four lines to swallow a block)
 
 # classes of input on which the implementation is recorded to deviate (known_findings.json); decided by the specification (tags)
